@@ -660,10 +660,11 @@ def fit_mutations(layout: str, sprp: str) -> List[Tuple[str, Callable[[Dict[str,
         ('brush-contents', setter('brushes', 'contents', bm.BrushContents(0xFFFFFFFF))),
         ('texinfo-flags', setter('texinfo', 'flags', SurfFlags(0xFFFFFFFF))),
         ('overlay-render-order', setter('overlays', 'render_order', 4)),
+        ('face-light-styles-5-bytes', setter('faces' if vit else 'orig_faces', 'light_styles', b'\x00\x01\x02\x03\x04')),
     ]
     if vit:
         # fields the vitamin layout does not store cannot overflow; its own widths differ
-        muts = [m for m in muts if m[0] not in ('face-smoothing-groups', 'primitive-index')]
+        muts = [m for m in muts if m[0] not in ('face-smoothing-groups', 'primitive-index', 'face-light-styles-5-bytes')]
         muts.append(('node-mins', setter('nodes', 'mins', Vec(float(1 << 31), 0, 0))))
         muts.append(('leaf-maxes', setter('visleafs', 'maxes', Vec(0, float(1 << 32), 0))))
         muts.append(('leaf-mins-negative', setter('visleafs', 'mins', Vec(-1, 0, 0))))
